@@ -25,6 +25,8 @@ CritSets == << DefaultCrits,
                <<[name |-> "overlap_end_threshold", th |-> 2], [name |-> "seqid", th |-> 0], [name |-> "feature_type", th |-> 0]>>,
                <<[name |-> "overlap_start_threshold", th |-> 1], [name |-> "seqid", th |-> 0]>>,
                <<[name |-> "overlap_any_threshold", th |-> 2], [name |-> "strand", th |-> 0]>>,
+               <<[name |-> "overlap_end_threshold", th |-> 0], [name |-> "seqid", th |-> 0]>>,
+               <<[name |-> "overlap_any_threshold", th |-> 0], [name |-> "overlap_start_threshold", th |-> 0]>>,
                <<>> >>
 
 VARIABLES ivs, pat, k, done
